@@ -20,10 +20,11 @@ def run(repo, run, tier):
     cache_key(repo, run)
     wrappers(repo, run)
     layout(repo, run)
+    write_through_views(repo, run)
     try:
         quotient(repo, run)
     except AnalysisError as e:
-        if not any(f.rule == "C16.4" for f in run.findings):
+        if not any(f.rule in ("C16.4", "C16.10") for f in run.findings):
             raise
         run.notes.append("C16.8 not evaluated (%s): the layout rule C16.4 already reports this loop" % e)
         run.rules.pop("C16.8", None)
@@ -352,9 +353,9 @@ def layout(repo, run):
         if isinstance(st, ast.Assign) and isinstance(st.value, ast.Call) and fname(st.value) == "reshape" and src(st.value.args[1]) == "(-1,)":
             a0 = src(st.value.args[0])
             if a0 == [a.arg for a in fn.args.args][1]:
-                flat_in = src(st.targets[0])
-            else:
-                flat_out = src(st.targets[0])
+                flat_in = flat_in or src(st.targets[0])
+            elif any(isinstance(d, ast.Assign) and src(d.targets[0]) == a0 and isinstance(d.value, ast.Call) and is_self_attr(d.value.func, "rhs") for d in fn.body):
+                flat_out = src(st.targets[0])          # the flattened OUTPUT: reshape of the value the wrapped function returned
     ok = flat_in is not None and over == flat_in
     run.judged(rid, "loop enumerates the flattened INPUT `%s`" % over, ok=ok)
     if not ok:
@@ -389,7 +390,10 @@ def layout(repo, run):
     if not masks:
         # the other idiom: the component is shifted in the flattened input itself (`flat[idx] = value + x*h` ... `flat[idx] = value`); whether writing into the
         # caller's array is acceptable is C13's question, the layout question here is only WHICH component moves
-        masks = [st for st in ast.walk(lp) if isinstance(st, ast.Assign) and isinstance(st.targets[0], ast.Subscript) and src(st.targets[0].value) == flat_in]
+        flats = {flat_in} | {src(d.targets[0]) for d in fn.body if isinstance(d, ast.Assign) and isinstance(d.value, ast.Call) and fname(d.value) == "reshape" and
+                             len(d.value.args) > 1 and src(d.value.args[1]).replace(" ", "") in ("(-1,)", "-1")}
+        masks = [st for st in ast.walk(lp) if isinstance(st, ast.Assign) and isinstance(st.targets[0], ast.Subscript) and src(st.targets[0].value) in flats and
+                 src(st.targets[0].value) != flat_out]
         okm = bool(masks) and all(src(st.targets[0].slice) == idx for st in masks)
     run.judged(rid, "perturbation mask set at index `%s`" % idx, ok=okm)
     if not okm:
@@ -795,3 +799,51 @@ def wrapper_statelessness(repo, run):
         for st, a in writes:
             run.report("C16.7", UTL, st, "JacobianWrapper.%s stores `self.%s` while evaluating: what is stored is reused by later calls, which may be made at another state, "
                                          "dtype or time (a Jacobian computed from values cached by an earlier call)" % (meth, a))
+
+
+# ------------------------------------------------------------------------------------------------
+def write_through_views(repo, run):
+    """'for all smooth f with arbitrary array shapes': a perturbation written through a FLAT ALIAS of a scratch array reaches the array handed to the wrapped function only
+    if `reshape(w, (-1,))` is a view of w, which numpy guarantees only for C-contiguous w.  `copy(x)` keeps the memory order of x (order='K'): for a Fortran-ordered or
+    transposed state the reshape is a detached copy, every stencil evaluation sees the unperturbed state, the weights sum to zero and the Jacobian comes out as zeros."""
+    rid = run.rule("C16.10", "JacobianWrapper.estimate: an array that is written through a reshape(-1) alias and then read under its own name is C-contiguous by construction "
+                             "(zeros / empty / ravel / reshape of a fresh array / ascontiguousarray / arithmetic result), never a plain copy of an argument", floor=1)
+    fn = repo.get(UTL, "JacobianWrapper.estimate")
+    params = {a.arg for a in fn.args.args}
+    binds = {}
+    for st in walk_no_nested(fn):
+        if isinstance(st, ast.Assign) and len(st.targets) == 1 and isinstance(st.targets[0], ast.Name):
+            binds.setdefault(st.targets[0].id, []).append(st.value)
+    n = 0
+    for name, vals in binds.items():
+        for v in vals:
+            if isinstance(v, ast.Call) and fname(v) == "reshape" and v.args and isinstance(v.args[0], ast.Name) and len(v.args) > 1 and src(v.args[1]).replace(" ", "") in ("(-1,)", "-1"):
+                base = v.args[0].id
+                stores = [x for x in ast.walk(fn) if isinstance(x, ast.Subscript) and isinstance(x.ctx, ast.Store) and isinstance(x.value, ast.Name) and x.value.id == name]
+                # the hazard: the array is handed to the wrapped function under its OWN name inside a loop that perturbs it through the alias
+                loops_ = [l for l in ast.walk(fn) if isinstance(l, (ast.For, ast.While)) and any(x2 in stores for x2 in ast.walk(l))]
+                def value_names(e):
+                    if isinstance(e, ast.Call) and (fname(e) or "").split(".")[-1] in ("shape", "size", "ndim", "len"):
+                        return
+                    if isinstance(e, ast.Name):
+                        yield e
+                    for ch in ast.iter_child_nodes(e):
+                        yield from value_names(ch)
+                reads = [x for l in loops_ for c in ast.walk(l) if isinstance(c, ast.Call) and is_self_attr(c.func, "rhs") and c.args
+                         for x in value_names(c.args[0]) if x.id == base]
+                if not stores or not reads:
+                    continue
+                n += 1
+                contiguous = True
+                for bv in binds.get(base, [None]) if base not in params else [None]:
+                    f = (fname(bv) or "").split(".")[-1] if isinstance(bv, ast.Call) else None
+                    ok1 = f in ("zeros", "ones", "empty", "zeros_like", "ravel", "ascontiguousarray", "flatten", "stack", "concatenate") or isinstance(bv, ast.BinOp) or (
+                        f in ("copy", "array", "asarray") and any(k.arg == "order" and isinstance(k.value, ast.Constant) and k.value.value == "C" for k in bv.keywords))
+                    contiguous = contiguous and ok1
+                run.judged(rid, "`%s` = reshape(%s, -1) is written through and `%s` is read: %s" % (name, base, base, "C-contiguous by construction" if contiguous else "memory order not known"), ok=contiguous)
+                if not contiguous:
+                    run.report("C16.10", UTL, stores[0], "`%s[...]` is stored into as a flat alias of `%s`, which is then handed on under its own name; `%s` is %s, whose memory order is that of the "
+                               "caller's array: for a Fortran-ordered / transposed / moveaxis view of a multi-axis state `reshape(-1)` returns a detached copy, the perturbations never "
+                               "reach the function being differentiated and every entry of the Jacobian is 0" % (name, base, base, "a parameter" if base in params else "bound by `%s`" % src(binds[base][0])[:40]))
+    if n == 0:
+        run.judged(rid, "no array is written through a flat alias", nontrivial=False)
